@@ -4,17 +4,17 @@ from .mir import callee, callee_matches, Prov
 from .ctx import where_of
 
 EXPLANATION = (
-    "Rules over the evaluator's MIR: (chokepoint) user and builtin procedure bodies are entered only from "
-    "apply_procedure; (arity-per-application) for every source the applied procedure can come from — the initial "
-    "argument and the procedure produced by a tail call on the trampoline's back edge — an argument-count "
-    "comparison against the formals of *that* procedure dominates the application, its decision table "
-    "(count, fixed, variadic) is the R7RS one and its failing edge only builds Err(ArgumentMissMatch); "
-    "(non-procedure) both call paths turn a non-procedure operator into Err(TypeMisMatch(_, Procedure)); "
-    "(expect-tables) each Value::expect_* is Ok exactly on its variant and Err(TypeMisMatch) otherwise; "
-    "(unbound) a missing variable is Err(UnboundedSymbol) on lookup and on assignment, and set! never creates a "
-    "binding; (vector) index misses are Err(VectorIndexOutOfBounds), no indexing operator is used on vector "
-    "storage; exact division is guarded by the zero test on every divisor; (no-swallow) no Result carrying a "
-    "SchemeError is discarded, defaulted or tested-and-ignored in evaluator code.")
+    'Decision tables of the evaluator (abstract interpretation over opaque operands): (arity-per-application) an '
+    'application with a wrong argument count yields Err(ArgumentMissMatch) with no frame created, nothing bound, '
+    'nothing evaluated — for the initial procedure, for a procedure reached through a tail call and for a '
+    'procedure that tail-calls itself; (non-procedure) a non-procedure operator => Err(TypeMisMatch(_, '
+    'Procedure)) on both call paths, an operand error is propagated and nothing is applied; (unbound) a missing '
+    'variable => Err(UnboundedSymbol) on lookup and assignment, set! never creates a binding; (vector) index '
+    'misses => Err(VectorIndexOutOfBounds), literal vectors => Err(RequiresMutable), storage untouched. '
+    'Structural rules: (chokepoint) procedure bodies are entered only from apply_procedure or helpers reachable '
+    'only from it; (expect-tables) each Value::expect_* is Ok exactly on its variant; exact division is guarded '
+    'by a zero test of every divisor (access-path exact); (no-swallow) no Result carrying a SchemeError is '
+    'discarded, defaulted or tested-and-ignored.')
 NOT_DECIDED = ("that the interpreter 'keeps exactly the effects completed before' the error for arbitrary programs; "
                "the text of messages.")
 
